@@ -44,15 +44,18 @@ def poly_d(co, x, order):
 def line_case(L, mask, order, periodic, rng, restrict=True, poly=None):
     h = F(rng.choice([1, 2, 4, 1]), rng.choice([1, 2, 4, 8]))
     x0 = F(rng.randint(-8, 8))
+    mag = F(1)
     if poly is None:
-        vals = [F(rng.randint(-20, 20)) for _ in range(L)]
+        mag = F(2) ** rng.choice([0, 0, 0, -30, -60, -200, 40, 300])
+        vals = [F(rng.randint(-20, 20)) * mag for _ in range(L)]
     else:
         vals = [poly_eval(poly, x0 + (j + F(1, 2)) * h) for j in range(L)]
     # integer-typed fields (integer data): the derivative must not be truncated to the operand's dtype
-    int_dtype = poly is None and rng.random() < 0.25
+    int_dtype = poly is None and mag == 1 and rng.random() < 0.25
     return dict(kind="line", sh=[L], nvdim=1, ax=0, order=order, cell=[g.qs(h)], p1=[g.qs(x0)],
                 periodic_axes=[0] if periodic else [], restrict=restrict,
-                vals=[g.qs(v) for v in vals], valid=[bool(b) for b in mask], poly=poly, int_dtype=int_dtype)
+                vals=[g.qs(v) for v in vals], valid=[bool(b) for b in mask], poly=poly, int_dtype=int_dtype,
+                mag=g.qs(mag))
 
 
 def nd_case(rng, tier):
@@ -135,6 +138,17 @@ def run_case(c):
         rec["oracle"].append("unit-changed")
     if not np.array_equal(r.valid, f.valid) or r.valid.dtype != np.bool_:
         rec["oracle"].append("validity-changed")
+    orig_valid = np.array(c["valid"], dtype=bool).reshape(*sh)
+    orig_vals = np.array([float(F(x)) for x in c["vals"]]).reshape(*sh, c["nvdim"])
+    if not np.array_equal(f.valid, orig_valid) or not np.array_equal(r.valid, orig_valid):
+        rec["oracle"].append("operand-validity-modified")
+    if not np.array_equal(np.asarray(f.array, dtype=float), orig_vals):
+        rec["oracle"].append("operand-values-modified")
+    # a second derivative of the same operand must see the same operand (no state left behind)
+    st2, r2 = attempt(lambda: f.diff(dim, order=3 - order, restrict2valid=c["restrict"]))
+    st3, r3 = attempt(lambda: f.diff(dim, order=order, restrict2valid=c["restrict"]))
+    if st3 != "ok" or not np.array_equal(r3.array, out) or not np.array_equal(f.valid, orig_valid):
+        rec["oracle"].append("repeated-call-differs")
     h = F(c["cell"][ax])
     vals = np.array([F(x) for x in c["vals"]], dtype=object).reshape(*sh, c["nvdim"])
     valid = np.array(c["valid"], dtype=bool).reshape(*sh)
@@ -179,6 +193,7 @@ def run_case(c):
         mask = eff_valid
         base = [F(x) for x in c["vals"]]
         o = [F(x) for x in out.reshape(-1).tolist()]
+        mag = F(c.get("mag", "1/1"))     # perturbations live at the magnitude of the data (exactness)
 
         def diff_of(v, m=None):
             c2 = dict(c)
@@ -191,17 +206,17 @@ def run_case(c):
             rs = runs_of(mask)
             if rs:
                 s, e = rs[0]
-                pert = [x if s <= j < e else x + 7 + j for j, x in enumerate(base)]
+                pert = [x if s <= j < e else x + (7 + j) * mag for j, x in enumerate(base)]
                 o2 = diff_of(pert)
                 if any(o2[j] != o[j] for j in range(s, e)):
                     rec["oracle"].append("run-locality")
         if c["restrict"] and not all(mask):
             # blind across gaps (open AND periodic lines): the values stored in invalid cells are never read
-            pert = [x if mask[j] else x + 1000 + 3 * j for j, x in enumerate(base)]
+            pert = [x if mask[j] else x + (1000 + 3 * j) * mag for j, x in enumerate(base)]
             if diff_of(pert) != o:
                 rec["oracle"].append("invalid-cell-value-read")
         if L <= 6:
-            w = [F((j * j * 3 + 1) % 11 - 5) for j in range(L)]
+            w = [F((j * j * 3 + 1) % 11 - 5) * mag for j in range(L)]
             ow = diff_of(w)
             comb = diff_of([2 * x - 3 * y for x, y in zip(base, w)])
             if any(comb[j] != 2 * o[j] - 3 * ow[j] for j in range(L)):
